@@ -82,20 +82,19 @@ Lemma signum_sgn_neg d st : st < 0 -> (signum d =? Z.sgn st) = (d <? 0).
 Proof. intros. unfold signum. rewrite (Z.sgn_neg st) by lia. destruct d; cbn; lia. Qed.
 
 Definition B : Z := 2305843009213693952. (* 2^61 *)
-Definition S32 : Z := 4294967296. (* 2^32 *)
 
 Lemma slice_loop_ok {A} (xs : list A) e st :
   let n := Z.of_nat (length xs) in
-  st <> 0 -> - S32 <= st <= S32 -> - B <= e <= B ->
+  st <> 0 -> - B <= st <= B -> - B <= e <= B ->
   forall (m fuel : nat) i,
-    - B - S32 <= i <= B + S32 ->
+    - 2 * B <= i <= 2 * B ->
     (0 < st -> i < e -> 0 <= i /\ e <= n) ->
     (st < 0 -> e < i -> i <= n - 1 /\ -1 <= e) ->
     Z.of_nat m = plen i e st -> (m < fuel)%nat ->
     slice_loop fuel xs i e st (Z.sgn st) = Ok (pick xs (progression i st m)) /\
     length (pick xs (progression i st m)) = m.
 Proof.
-  intros n Hst Bst Be. unfold B, S32 in *.
+  intros n Hst Bst Be. unfold B in *.
   induction m as [|m IH]; intros fuel i Bi Hpos Hneg Hm Hfuel.
   - destruct fuel as [|f]; [lia|]. cbn [slice_loop].
     rewrite wrap64_small by lia.
@@ -176,22 +175,27 @@ Proof.
 Qed.
 
 (* ---- what slice_bounds computes, in terms of Python's slice.indices *)
-Lemma as_index_small v len r0 :
-  small_arg v = true -> 0 <= len <= B ->
+(* the value asIndex gives an integer operand *)
+Definition gadj (len z : Z) : Z :=
+  if in_int64 z then (if z <? 0 then z + len else z) else if z <? 0 then -1 else len.
+
+Lemma as_index_eq v len r0 :
+  0 <= len <= B ->
   as_index v len r0 =
   match int_or_none v with
   | None => None
   | Some None => Some r0
-  | Some (Some z) => Some (if z <? 0 then z + len else z)
+  | Some (Some z) => Some (gadj len z)
   end.
 Proof.
-  unfold B. intros Hs Hl. destruct v as [|z|]; cbn in *; try reflexivity.
-  rewrite Hs. apply in_int32_bounds in Hs.
-  destruct (z <? 0); [rewrite wrap64_small by lia|]; reflexivity.
+  unfold B. intros Hl. destruct v as [|z|]; cbn; try reflexivity.
+  unfold gadj. destruct (in_int64 z) eqn:E; [|destruct (z <? 0); reflexivity].
+  unfold in_int64, min_int64, max_int64 in E.
+  destruct (z <? 0) eqn:E1; [rewrite wrap64_small by lia|]; reflexivity.
 Qed.
 
 Definition adj (len : Z) (v : option Z) (dflt : Z) : Z :=
-  match v with None => dflt | Some z => if z <? 0 then z + len else z end.
+  match v with None => dflt | Some z => gadj len z end.
 
 Definition go_bounds (n : Z) (lo hi : option Z) (st : Z) : Z * Z :=
   if st >? 0 then
@@ -206,24 +210,23 @@ Definition go_bounds (n : Z) (lo hi : option Z) (st : Z) : Z * Z :=
     ((if s0 <? e then e else s0), e).
 
 Lemma slice_bounds_eq n lo hi st stv :
-  0 <= n <= B -> small_arg lo = true -> small_arg hi = true ->
-  slice_step st = Some stv ->
+  0 <= n <= B ->
+  slice_step n st = Some stv ->
   slice_bounds n lo hi st =
   match int_or_none lo, int_or_none hi with
   | Some lo', Some hi' => let '(s, e) := go_bounds n lo' hi' stv in Some (s, e, stv)
   | _, _ => None
   end.
 Proof.
-  intros Hn Hlo Hhi Hst. unfold slice_bounds, indices, go_bounds. rewrite Hst.
-  rewrite !(as_index_small lo) by assumption.
-  rewrite !(as_index_small hi) by assumption.
+  intros Hn Hst. unfold slice_bounds, indices, go_bounds. rewrite Hst.
+  rewrite !(as_index_eq lo) by assumption.
+  rewrite !(as_index_eq hi) by assumption.
   rewrite (wrap64_small (n - 1)) by (unfold B in *; lia).
   destruct (stv >? 0) eqn:E.
   - destruct (int_or_none lo) as [[zl|]|]; destruct (int_or_none hi) as [[zh|]|]; cbn [adj]; reflexivity.
   - destruct (int_or_none lo) as [[zl|]|]; destruct (int_or_none hi) as [[zh|]|]; cbn [adj]; reflexivity.
 Qed.
 
-Definition opt_small (v : option Z) : Prop := match v with Some z => -2147483648 <= z <= 2147483647 | None => True end.
 
 Ltac split_ifs :=
   repeat (match goal with
@@ -233,18 +236,21 @@ Ltac split_ifs :=
          | H : context[if ?a <? ?b then _ else _] |- _ => destruct (a <? b) eqn:?
          | H : context[if ?a >? ?b then _ else _] |- _ => destruct (a >? b) eqn:?
          | H : context[if ?a >=? ?b then _ else _] |- _ => destruct (a >=? b) eqn:?
+         | |- context[if ?c then _ else _] => destruct c eqn:?
+         | H : context[if ?c then _ else _] |- _ => destruct c eqn:?
          end; try lia).
 
 Lemma go_bounds_agree n lo hi st :
-  0 <= n <= B -> opt_small lo -> opt_small hi -> st <> 0 ->
+  0 <= n <= B -> st <> 0 ->
   let '(s, e) := go_bounds n lo hi st in
   let '(sp, ep, len) := slice_indices n lo hi st in
   plen s e st = len /\ (len = 0 \/ s = sp) /\
-  - B <= s <= B /\ - B <= e <= B /\
-  (0 < st -> 0 <= s <= e /\ e <= n) /\
-  (st < 0 -> e <= s /\ (e < s -> s <= n - 1 /\ -1 <= e)).
+  ((st < 0 /\ s = e) \/
+   (- B <= s <= B /\ - B <= e <= B /\
+    (0 < st -> 0 <= s <= e /\ e <= n) /\
+    (st < 0 -> e <= s /\ (e < s -> s <= n - 1 /\ -1 <= e)))).
 Proof.
-  intros Hn Hlo Hhi Hst.
+  intros Hn Hst.
   pose proof (slice_indices_len n lo hi st) as HL.
   destruct (slice_indices n lo hi st) as [[sp ep] len] eqn:ES.
   unfold slice_indices in ES. injection ES as Es Ee El.
@@ -256,213 +262,19 @@ Proof.
   - injection EG as Gs Ge.
     assert (Est : (st <? 0) = false) by lia. rewrite Est in *.
     unfold plen in *. rewrite Est in *.
-    unfold clamp0, adj, adjust_bound in *.
-    destruct lo as [zl|], hi as [zh|]; cbn [opt_small] in *;
+    unfold clamp0, adj, gadj, adjust_bound, in_int64, min_int64, max_int64 in *.
+    destruct lo as [zl|], hi as [zh|];
       subst s e sp ep; rewrite HL; clear HL El;
-      split_ifs; repeat split; try lia;
+      split_ifs; (split; [|split; [|right]]); repeat split; try lia;
       try (first [ f_equal; lia | rewrite !Hc by lia; reflexivity | right; lia | left; apply Hc; lia ]).
   - injection EG as Gs Ge.
     assert (Est : (st <? 0) = true) by lia. rewrite Est in *.
     unfold plen in *. rewrite Est in *.
-    unfold clamp0, adj, adjust_bound in *.
-    destruct lo as [zl|], hi as [zh|]; cbn [opt_small] in *;
+    unfold clamp0, adj, gadj, adjust_bound, in_int64, min_int64, max_int64 in *.
+    destruct lo as [zl|], hi as [zh|];
       subst s e sp ep; rewrite HL; clear HL El;
-      split_ifs; repeat split; try lia;
-      try (first [ f_equal; lia | rewrite !Hc by lia; reflexivity | right; lia | left; apply Hc; lia ]).
+      split_ifs; (split; [|split]);
+      try (first [ f_equal; lia | rewrite !Hc by lia; reflexivity | right; lia | left; apply Hc; lia ]);
+      try (first [ left; split; lia | right; repeat split; lia ]).
 Qed.
 
-Lemma plen_one s e : s <= e -> plen s e 1 = e - s.
-Proof.
-  intros H. unfold plen. change (1 <? 0) with false. cbv iota. unfold cnt.
-  destruct (0 <? e - s) eqn:E; [|apply Z.ltb_ge in E; lia].
-  rewrite Z.div_1_r. lia.
-Qed.
-
-Lemma plen_bound s e st n :
-  0 <= n -> st <> 0 ->
-  (0 < st -> 0 <= s <= e /\ e <= n) ->
-  (st < 0 -> e <= s /\ (e < s -> s <= n - 1 /\ -1 <= e)) ->
-  0 <= plen s e st <= n.
-Proof.
-  intros Hn0 Hst Hp Hn. unfold plen.
-  destruct (st <? 0) eqn:E.
-  - destruct (Hn ltac:(lia)) as [H1 H2].
-    destruct (Z.eq_dec e s) as [->|Hne].
-    + rewrite cnt_nonpos by lia. lia.
-    + pose proof (cnt_pos (s - e) (- st)). lia.
-  - destruct (Hp ltac:(lia)) as [H1 H2].
-    destruct (Z.eq_dec e s) as [->|Hne].
-    + rewrite cnt_nonpos by lia. lia.
-    + pose proof (cnt_pos (e - s) st). lia.
-Qed.
-
-Lemma seq_slice_ok {A} (xs : list A) s e st :
-  let n := Z.of_nat (length xs) in
-  st <> 0 -> - S32 <= st <= S32 -> - B <= s <= B -> - B <= e <= B ->
-  (0 < st -> 0 <= s <= e /\ e <= n) ->
-  (st < 0 -> e <= s /\ (e < s -> s <= n - 1 /\ -1 <= e)) ->
-  seq_slice xs s e st = Ok (pick xs (progression s st (Z.to_nat (plen s e st)))).
-Proof.
-  intros n Hst Bst Bs Be Hp Hn. unfold seq_slice.
-  pose proof (plen_bound s e st n ltac:(lia) Hst Hp Hn) as HB.
-  destruct (st =? 1) eqn:E1.
-  - assert (st = 1) by lia. subst st.
-    destruct (Hp ltac:(lia)) as [H1 H2].
-    unfold go_subslice.
-    destruct ((0 <=? s) && (s <=? e) && (e <=? Z.of_nat (length xs))) eqn:E2; [|lia].
-    rewrite plen_one by lia.
-    rewrite pick_contiguous by lia. reflexivity.
-  - destruct (slice_loop_ok xs e st Hst Bst Be (Z.to_nat (plen s e st)) (S (length xs)) s) as [H1 _];
-      try (unfold B, S32 in *; lia).
-    exact H1.
-Qed.
-
-Lemma small_opt v z : small_arg v = true -> int_or_none v = Some z -> opt_small z.
-Proof.
-  destruct v as [|x|]; cbn; intros H E; try discriminate; injection E as <-; cbn; [exact I|].
-  apply in_int32_bounds. exact H.
-Qed.
-
-Lemma slice_step_spec st :
-  small_arg st = true ->
-  slice_step st =
-  match int_or_none st with
-  | Some o => let step := match o with None => 1 | Some s => s end in
-              if step =? 0 then None else Some step
-  | None => None
-  end.
-Proof.
-  destruct st as [|z|]; cbn; intros H; try reflexivity. rewrite H. reflexivity.
-Qed.
-
-Lemma slice_correct_lemma : forall (A : Type) (xs : list A) lo hi st,
-  Z.of_nat (length xs) <= 2^61 ->
-  small_arg lo = true -> small_arg hi = true -> small_arg st = true ->
-  slice_impl xs lo hi st = of_spec (slice_spec xs lo hi st).
-Proof.
-  intros A xs lo hi st Hn Hlo Hhi Hst.
-  change (2^61) with B in Hn.
-  unfold slice_impl, slice_spec.
-  pose proof (slice_step_spec st Hst) as HS.
-  destruct (int_or_none st) as [o|] eqn:Eo.
-  2:{ unfold slice_bounds. rewrite HS.
-      destruct (int_or_none lo), (int_or_none hi); reflexivity. }
-  cbv zeta in HS.
-  set (step := match o with None => 1 | Some s => s end) in *.
-  destruct (step =? 0) eqn:E0.
-  { unfold slice_bounds. rewrite HS.
-    destruct (int_or_none lo), (int_or_none hi); reflexivity. }
-  rewrite (slice_bounds_eq _ lo hi st step) by (try assumption; lia).
-  destruct (int_or_none lo) as [lo'|] eqn:El; [|reflexivity].
-  destruct (int_or_none hi) as [hi'|] eqn:Eh; [|reflexivity].
-  assert (Bstep : - S32 <= step <= S32).
-  { unfold S32, step. destruct o as [z|]; [|lia].
-    pose proof (small_opt st (Some z) Hst Eo) as Hz. cbn in Hz. lia. }
-  pose proof (go_bounds_agree (Z.of_nat (length xs)) lo' hi' step ltac:(lia)
-                (small_opt _ _ Hlo El) (small_opt _ _ Hhi Eh) ltac:(lia)) as HA.
-  destruct (go_bounds (Z.of_nat (length xs)) lo' hi' step) as [s e].
-  destruct (slice_indices (Z.of_nat (length xs)) lo' hi' step) as [[sp ep] len].
-  destruct HA as (Hlen & Hs & Bs & Be & Hp & Hneg).
-  rewrite seq_slice_ok by (try assumption; lia).
-  cbn [of_spec]. rewrite Hlen.
-  destruct Hs as [-> | ->]; reflexivity.
-Qed.
-
-(* operands outside the AsInt32 domain are rejected (spec.md and Python would clamp them) *)
-Lemma slice_rejects_outside_int32_lemma : forall (A : Type) (xs : list A) lo hi st,
-  small_arg lo && small_arg hi && small_arg st = false -> slice_impl xs lo hi st = Err.
-Proof.
-  intros A xs lo hi st H. unfold slice_impl, slice_bounds, slice_step, indices, as_index, as_int32.
-  destruct st as [|zs|]; cbn [small_arg] in H; try reflexivity.
-  - destruct lo as [|zl|], hi as [|zh|]; cbn [small_arg] in H; cbn; try discriminate;
-      repeat match goal with |- context[in_int32 ?z] => destruct (in_int32 z) eqn:? end;
-      cbn in *; try discriminate; reflexivity.
-  - destruct (in_int32 zs) eqn:Es; [|reflexivity].
-    destruct (zs =? 0); [reflexivity|].
-    destruct (zs >? 0);
-    destruct lo as [|zl|], hi as [|zh|]; cbn [small_arg] in H; cbn; try discriminate;
-      repeat match goal with |- context[in_int32 ?z] => destruct (in_int32 z) eqn:? end;
-      cbn in *; try discriminate; try reflexivity.
-Qed.
-
-Lemma indices_clamp_lemma : forall n lo hi,
-  0 <= n <= 2^61 -> small_arg lo = true -> small_arg hi = true ->
-  indices lo hi n = clamped_bounds n lo hi.
-Proof.
-  intros n lo hi Hn Hlo Hhi. change (2^61) with B in Hn.
-  unfold indices, clamped_bounds.
-  rewrite (as_index_small lo) by assumption.
-  rewrite (as_index_small hi) by assumption.
-  pose proof (small_opt lo) as Slo. pose proof (small_opt hi) as Shi.
-  destruct (int_or_none lo) as [lo'|]; [|reflexivity].
-  destruct (int_or_none hi) as [hi'|].
-  2:{ destruct lo'; reflexivity. }
-  specialize (Slo _ Hlo eq_refl). specialize (Shi _ Hhi eq_refl).
-  unfold slice_indices. change (1 <? 0) with false. cbv iota.
-  unfold clamp0, adjust_bound, B in *.
-  destruct lo' as [zl|], hi' as [zh|]; cbn [opt_small] in *;
-    split_ifs; repeat f_equal; lia.
-Qed.
-
-Lemma indices_range_lemma : forall n lo hi s e,
-  0 <= n -> indices lo hi n = Some (s, e) -> 0 <= s <= n /\ 0 <= e <= n.
-Proof.
-  intros n lo hi s e Hn H. unfold indices in H.
-  destruct (as_index lo n 0) as [a|]; [|discriminate].
-  destruct (as_index hi n n) as [b|]; [|discriminate].
-  injection H as <- <-. unfold clamp0. split_ifs; lia.
-Qed.
-
-Lemma index_correct_lemma : forall (A : Type) (xs : list A) y,
-  Z.of_nat (length xs) <= 2^31 -> get_index xs y = of_spec (index_spec xs y).
-Proof.
-  intros A xs y Hn. change (2^31) with 2147483648 in Hn.
-  unfold get_index, norm_index, index_spec, as_int32.
-  destruct y as [|z|]; try reflexivity.
-  destruct (in_int32 z) eqn:Ez.
-  - apply in_int32_bounds in Ez.
-    destruct (z <? 0) eqn:E1.
-    + rewrite wrap64_small by lia.
-      destruct ((z + Z.of_nat (length xs) <? 0) || (z + Z.of_nat (length xs) >=? Z.of_nat (length xs))) eqn:E2.
-      * destruct ((- Z.of_nat (length xs) <=? z) && (z <? Z.of_nat (length xs))) eqn:E3; [lia|reflexivity].
-      * destruct ((- Z.of_nat (length xs) <=? z) && (z <? Z.of_nat (length xs))) eqn:E3; [|lia].
-        replace (Z.of_nat (length xs) + z) with (z + Z.of_nat (length xs)) by lia.
-        destruct (valid_index xs (z + Z.of_nat (length xs)) ltac:(lia)) as [x [-> ->]]. reflexivity.
-    + destruct ((z <? 0) || (z >=? Z.of_nat (length xs))) eqn:E2.
-      * destruct ((- Z.of_nat (length xs) <=? z) && (z <? Z.of_nat (length xs))) eqn:E3; [lia|reflexivity].
-      * destruct ((- Z.of_nat (length xs) <=? z) && (z <? Z.of_nat (length xs))) eqn:E3; [|lia].
-        destruct (valid_index xs z ltac:(lia)) as [x [-> ->]]. reflexivity.
-  - destruct ((- Z.of_nat (length xs) <=? z) && (z <? Z.of_nat (length xs))) eqn:E3; [|reflexivity].
-    unfold in_int32, min_int32, max_int32 in Ez. lia.
-Qed.
-
-Lemma set_nth_spec {A} (xs : list A) (j : nat) v :
-  (j < length xs)%nat -> set_nth xs j v = Some (firstn j xs ++ v :: skipn (S j) xs).
-Proof.
-  revert j. induction xs as [|x r IH]; intros [|j] H; cbn in *; try lia; try reflexivity.
-  rewrite IH by lia. reflexivity.
-Qed.
-
-Lemma setindex_correct_lemma : forall (A : Type) (xs : list A) y v,
-  Z.of_nat (length xs) <= 2^31 -> set_index xs y v = of_spec (setindex_spec xs y v).
-Proof.
-  intros A xs y v Hn. change (2^31) with 2147483648 in Hn.
-  unfold set_index, norm_index, setindex_spec, as_int32.
-  destruct y as [|z|]; try reflexivity.
-  destruct (in_int32 z) eqn:Ez.
-  - apply in_int32_bounds in Ez.
-    destruct (z <? 0) eqn:E1.
-    + rewrite wrap64_small by lia.
-      destruct ((z + Z.of_nat (length xs) <? 0) || (z + Z.of_nat (length xs) >=? Z.of_nat (length xs))) eqn:E2.
-      * destruct ((- Z.of_nat (length xs) <=? z) && (z <? Z.of_nat (length xs))) eqn:E3; [lia|reflexivity].
-      * destruct ((- Z.of_nat (length xs) <=? z) && (z <? Z.of_nat (length xs))) eqn:E3; [|lia].
-        destruct (z + Z.of_nat (length xs) <? 0) eqn:E4; [lia|].
-        rewrite set_nth_spec by lia. cbn [of_spec].
-        replace (Z.of_nat (length xs) + z) with (z + Z.of_nat (length xs)) by lia. reflexivity.
-    + destruct ((z <? 0) || (z >=? Z.of_nat (length xs))) eqn:E2.
-      * destruct ((- Z.of_nat (length xs) <=? z) && (z <? Z.of_nat (length xs))) eqn:E3; [lia|reflexivity].
-      * destruct ((- Z.of_nat (length xs) <=? z) && (z <? Z.of_nat (length xs))) eqn:E3; [|lia].
-        rewrite E1. rewrite set_nth_spec by lia. reflexivity.
-  - destruct ((- Z.of_nat (length xs) <=? z) && (z <? Z.of_nat (length xs))) eqn:E3; [|reflexivity].
-    unfold in_int32, min_int32, max_int32 in Ez. lia.
-Qed.
